@@ -143,13 +143,115 @@ def run(chk):
     chk.check(okp and not reb, 'C12-R3', HOD, Q, 'pinds = _searchsorted_parallel(hid, phid) after the re-sort', '',
               f'pinds is {unparse(pin[0].value) if pin else None} / computed before the re-sort: particles would point at pre-sort rows', node=pin[0] if pin else fn)
     sp = src.func(HOD, '_searchsorted_parallel')
-    a, b = [x.arg for x in sp.args.args][:2]
-    st = own.classify_function(sp)
-    body = [unparse(s) for s in sp.body]
-    oks = all(s.cls == 'iteration-private' for s in st) and len(st) == 1 and any(f'np.searchsorted({a}, {b}[i])' in t for t in body) \
-        and body[-1] == 'return res' and f'np.empty(len({b})' in body[0]
+    oks, whys, okcov = _lookup_kernel(sp)
     chk.check(oks, 'C12-R3', HOD, '_searchsorted_parallel', 'res[i] = searchsorted(a, b[i]) for every i, iteration-private', '',
-              'the parallel lookup no longer maps each b[i] to its position in a', node=sp)
-    dec = own.prange_loops(sp)
-    chk.check(len(dec) == 1 and unparse(dec[0].iter).endswith(f'prange(len({b}))'), 'C12-R3', HOD, '_searchsorted_parallel', 'loop covers every particle', '',
+              'the parallel lookup no longer maps each b[i] to its position in a: ' + whys, node=sp)
+    chk.check(okcov, 'C12-R3', HOD, '_searchsorted_parallel', 'loop covers every particle', '',
               'lookup loop does not cover all of b', node=sp, nontrivial=False)
+
+
+
+def _lookup_kernel(sp):
+    """res = empty(len(b)); for i in prange(len(b)): res[i] = <leftmost insertion point of b[i] in a>; return res.
+    The insertion point is np.searchsorted(a, b[i]) (side left) or the textbook lower-bound bisection.  An early return
+    of an empty result for empty b is allowed.  Locals (nb = len(b)) are resolved."""
+    a, b = [x.arg for x in sp.args.args][:2]
+    defs = {}
+    for n in walk_no_nested(sp):
+        if isinstance(n, ast.Assign) and len(n.targets) == 1 and isinstance(n.targets[0], ast.Name):
+            defs.setdefault(n.targets[0].id, []).append(n.value)
+
+    def res(e):
+        if isinstance(e, ast.Name) and len(defs.get(e.id, [])) == 1 and e.id not in (a, b):
+            return unparse(defs[e.id][0])
+        return unparse(e)
+    loops = own.prange_loops(sp)
+    if len(loops) != 1:
+        return False, f'{len(loops)} parallel loops', False
+    lp = loops[0]
+    iv = lp.target.id
+    okcov = len(lp.iter.args) == 1 and res(lp.iter.args[0]) in (f'len({b})', f'{b}.size', f'{b}.shape[0]')
+    st = own.classify_function(sp)
+    if not (len(st) == 1 and st[0].cls == 'iteration-private'):
+        return False, f'stores under prange: {[(unparse(x.node), x.cls) for x in st]}', okcov
+    store = st[0].node
+    out = unparse(store.value)
+    if unparse(store.slice) != iv:
+        return False, f'store {unparse(store)} is not indexed by the loop variable', okcov
+    alloc = defs.get(out, [])
+    okalloc = len(alloc) == 1 and isinstance(alloc[0], ast.Call) and dotted(alloc[0].func) in ('np.empty', 'np.zeros') and alloc[0].args \
+        and res(alloc[0].args[0]) in (f'len({b})', f'{b}.size', f'{b}.shape[0]')
+    rets = [n for n in walk_no_nested(sp) if isinstance(n, ast.Return)]
+    main = [r for r in rets if unparse(r.value) == out]
+    early = [r for r in rets if r not in main]
+    okret = len(main) == 1
+    for r in early:
+        g = getattr(r, '_parent', None)
+        t = unparse(g.test).replace(' ', '') if isinstance(g, ast.If) else ''
+        tests = {f'len({b})==0', f'{b}.size==0', f'notlen({b})'} | {f'{k}==0' for k, v in defs.items() if len(v) == 1 and unparse(v[0]) in (f'len({b})', f'{b}.size')}
+        emp = isinstance(r.value, ast.Call) and dotted(r.value.func) in ('np.empty', 'np.zeros') and r.value.args and unparse(r.value.args[0]) in ('0', '(0,)')
+        if not (t in tests and emp):
+            okret = False
+    # the assigned value
+    assign = store._parent if isinstance(getattr(store, '_parent', None), ast.Assign) else None
+    if assign is None:
+        return False, 'result element is not a plain assignment', okcov
+    v = assign.value
+    okval = False
+    why = f'res[{iv}] = {unparse(v)[:60]}'
+    if isinstance(v, ast.Call) and dotted(v.func) == 'np.searchsorted' and len(v.args) >= 2 and unparse(v.args[0]) == a and unparse(v.args[1]) == f'{b}[{iv}]':
+        side = [k for k in v.keywords if k.arg == 'side']
+        okval = not side or (isinstance(side[0].value, ast.Constant) and side[0].value.value == 'left')
+        okval = okval and all(k.arg in ('side',) for k in v.keywords) and len(v.args) == 2
+    elif isinstance(v, ast.Name):
+        okval, why2 = _lower_bound(lp, v.id, a, f'{b}[{iv}]', defs)
+        why += '; ' + why2
+    return okalloc and okret and okval, ('' if okalloc else 'result not allocated with len(b) entries; ') + ('' if okret else 'returns changed; ') + ('' if okval else why), okcov
+
+
+def _lower_bound(lp, lo, a, key_txt, fdefs):
+    """Textbook leftmost bisection inside the loop body:
+         lo = 0; hi = len(a); while lo < hi: mid = lo + (hi - lo) // 2 | (lo + hi) // 2 | >> 1; if a[mid] < key: lo = mid + 1 else: hi = mid"""
+    body = lp.body
+    ldefs = {}
+    for n in body:
+        if isinstance(n, ast.Assign) and len(n.targets) == 1 and isinstance(n.targets[0], ast.Name):
+            ldefs.setdefault(n.targets[0].id, []).append(n.value)
+    wl = [n for n in body if isinstance(n, ast.While)]
+    if len(wl) != 1:
+        return False, 'no single search loop'
+    W = wl[0]
+    t = W.test
+    if not (isinstance(t, ast.Compare) and len(t.ops) == 1 and isinstance(t.ops[0], ast.Lt) and unparse(t.left) == lo and isinstance(t.comparators[0], ast.Name)):
+        return False, f'search loop test {unparse(t)}'
+    hi = t.comparators[0].id
+    init_lo = [unparse(v) for v in ldefs.get(lo, [])]
+    init_hi = [unparse(v) for v in ldefs.get(hi, [])]
+    if init_lo != ['0'] or init_hi not in ([f'len({a})'], [f'{a}.size'], [f'{a}.shape[0]']):
+        hn = init_hi[0] if init_hi else None
+        if not (init_lo == ['0'] and hn and len(fdefs.get(hn, [])) == 1 and unparse(fdefs[hn][0]) in (f'len({a})', f'{a}.size')):
+            return False, f'search starts with {lo} = {init_lo}, {hi} = {init_hi}'
+    wb = W.body
+    mids = (f'{lo}+(({hi}-{lo})>>1)', f'{lo}+({hi}-{lo})//2', f'({lo}+{hi})//2', f'{lo}+{hi}>>1', f'({lo}+{hi})>>1', f'{lo}+({hi}-{lo}>>1)')
+    if len(wb) == 2 and isinstance(wb[0], ast.Assign) and isinstance(wb[0].targets[0], ast.Name) and isinstance(wb[1], ast.If):
+        mid = wb[0].targets[0].id
+        if unparse(wb[0].value).replace(' ', '') not in mids:
+            return False, f'midpoint {unparse(wb[0].value)}'
+        iff = wb[1]
+    elif len(wb) == 1 and isinstance(wb[0], ast.If) and isinstance(wb[0].test, ast.Compare) and isinstance(wb[0].test.left, ast.Subscript):
+        # the midpoint written out in place (no local)
+        iff = wb[0]
+        mid = unparse(iff.test.left.slice).replace(' ', '')
+        if mid not in mids:
+            return False, f'midpoint {mid}'
+    else:
+        return False, 'search loop body is not [mid = ...;] if a[mid] < key: lo = mid + 1 else: hi = mid'
+    key = key_txt
+    tt = unparse(iff.test).replace(' ', '')
+    keys = {key.replace(' ', '')} | {k for k, v in ldefs.items() if len(v) == 1 and unparse(v[0]) == key}
+    ok_test = any(tt == f'{a}[{mid}]<{k}' for k in keys)
+    ok_body = len(iff.body) == 1 and unparse(iff.body[0]).replace(' ', '') in (f'{lo}={mid}+1', f'{lo}=1+{mid}') and \
+        len(iff.orelse) == 1 and unparse(iff.orelse[0]).replace(' ', '') == f'{hi}={mid}'
+    if not (ok_test and ok_body):
+        return False, f'bisection step: if {unparse(iff.test)}: {[unparse(x) for x in iff.body]} else: {[unparse(x) for x in iff.orelse]}'
+    return True, 'lower-bound bisection'
